@@ -113,7 +113,9 @@ fn clamp_extended(seed: &[u8; 32]) -> [u8; 64] {
 }
 
 pub fn honest(seed: &[u8; 32], msg: &[u8], extended: bool) -> ([u8; 32], [u8; 64]) {
-    let (kp, pk) = ed25519::keypair(seed);
+    let (kp, pk0) = ed25519::keypair(seed);
+    // the public half as the accessor of the keypair hands it out (every second message length), else as returned
+    let pk = if msg.len() % 2 == 1 { *ed25519::keypair_public(&kp) } else { pk0 };
     let sig = if extended { ed25519::signature_extended(msg, &clamp_extended(seed)) } else { ed25519::signature(msg, &kp) };
     (pk, sig)
 }
